@@ -313,3 +313,8 @@ def f_betabinom(seed, n):
     rv = betabinom(n=n, a=3.0, b=1.0)
     rv.random_state = rng
     return rv.rvs(size=1) + 1
+
+
+def f_round_builtin(k):
+    x = k * 0.05
+    return np.array([round(x, 1), np.round(x, 1)])
